@@ -48,6 +48,7 @@ type Obs struct {
 	Puts       []PutObs
 	Emits      []EmitObs
 	Syncs      []SyncCall
+	Genesis    []string `json:"-"` // signatures of the round-0 beacons written during the event (handler starts)
 	LiveBefore int // index of the epoch whose group the vault held before / after the event (-1: none)
 	LiveAfter  int
 	Now        int64
@@ -383,7 +384,8 @@ func (r *runner) Do(ev Event) Obs {
 	puts := w.Rec.snapshot()
 	for _, p := range puts[r.nPuts:] {
 		p := p
-		if p.Round == 0 { // the genesis beacon inserted by NewHandler is not an observation
+		if p.Round == 0 { // the genesis beacon inserted by NewHandler is not an observation of the model's step
+			o.Genesis = append(o.Genesis, string(p.Signature))
 			continue
 		}
 		ver := p.Round == 0 || w.Sch.VerifyBeacon(&p, w.Epochs[0].PubPoly.Commit()) == nil
